@@ -91,7 +91,7 @@ Proof.
   pose proof HI as [I1 [I2 [I3 I4]]]. pose proof (I3 _ _ Hc) as Ok. unfold client_ok in Ok.
   destruct (cpc c) as [|at_|at_|at_|ok] eqn:Epc.
   - (* read HEAD *)
-    apply (inv_local s i c); auto. unfold client_ok. simpl. split; [exact I1 | exact Ok].
+    apply (inv_local s i c); auto. unfold client_ok. simpl. split; [apply le_n | exact Ok].
   - (* constraint *)
     destruct Ok as [Hle Hcnt].
     destruct (jcheck (cop c) (table s at_)) eqn:Ech; apply (inv_local s i c); auto; unfold client_ok; simpl; auto.
